@@ -22,13 +22,19 @@ def run(ctx, sess):
     P = sess.prog('default')
     f = P.fn('jls_copy')
     ctx.saw(f)
-    _late = lambda: unclosed_listing_rule(ctx, P, 'C17.9')
+    def _late():
+        unclosed_listing_rule(ctx, P, 'C17.9')
+        copy_loop_rule(ctx, P, 'C17.10')
+        from .frames import frames_rule
+        frames_rule(ctx, P, 'C17.11', kinds=('utc',), minimum=1)
     ctx.rule('C17.1', 'the dispatch switch of jls_copy has a case for every chunk tag of the format')
     ctx.rule('C17.2', 'every content tag is re-issued through the matching writer call; payload fields are passed to the parameter of the same name; ids and positions come from the chunk that was read')
     ctx.rule('C17.3', 'the copy-side parsers of SOURCE_DEF and SIGNAL_DEF use the writer\'s field sequence')
     ctx.rule('C17.4', 'closed result: every return after the files were opened passes jls_wr_close and jls_raw_close; unclosed originals are accepted')
     ctx.rule('C17.6', 'no chunk is skipped for lack of buffer: the copy buffer covers the on-disk payload on every path to the payload read')
     ctx.rule('C17.9', 'an unclosed original and its copy list the same time-series entries: for every track kind whose DATA chunks jls_copy re-issues by walking the file, the reader of that kind either starts at level 0 and follows the DATA chunk chain (every chunk on disk is reached), or the repair in jls_rd_open rebuilds the index of that kind')
+    ctx.rule('C17.10', 'the copy visits every chunk of the original: the loop of jls_copy goes on while a chunk starts before the end of the file - evaluated with exactly one header (32 bytes, a chunk without payload) left, the loop condition holds')
+    ctx.rule('C17.11', 'UTC entries of an original are listed in one frame: the UTC reader applies the sample_id_offset exactly once and no compare mixes api-relative and file ids (shared with C12.2) - the path through unindexed UTC DATA chunks, which only unclosed originals take, included')
     ctx.rule('C17.7', 'a content chunk is left out of the copy only when it is one the writer creates by itself: source/signal id 0, user data with storage type INVALID')
     ctx.rule('C17.5', 'omitted blocks: since the writer can record a level-0 block as omitted (index entry 0), the copy must consume the level-1 INDEX/SUMMARY chunks to reproduce it')
     sw = None
@@ -236,3 +242,31 @@ def unclosed_listing_rule(ctx, P, rule):
                'the reader starts at level 0 and follows the DATA chunk chain' if levels == {0} else
                ('repair rebuilds the %s index' % kind if rebuilt else
                 'the reader starts at index level %s and follows the chain of committed INDEX/SUMMARY chunks; repair does not rebuild the %s index, so entries written after the last committed index of an unclosed file are not listed by its reader, while jls_copy - which walks the DATA chunks - re-issues them: original and copy differ' % (sorted(levels), kind)))
+
+
+
+def copy_loop_rule(ctx, P, rule):
+    from ..fd import FD, Top
+    from ..graph import loops
+    fn = P.fn('jls_copy')
+    fd = FD(P)
+    hdr = P.record('jls_chunk_header_s')['size']
+    # the loop that reads chunk headers
+    heads = [b for b in fn.blocks.values() if b.cond is not None and any(m.get('op') == 'ref' and m.get('name') == 'offset_end' for m in walk(b.cond))]
+    if not heads:
+        raise AnalysisBroken('jls_copy: loop over the chunks (offset < offset_end) not found')
+    n = 0
+    for b in heads:
+        n += 1
+        bad = []
+        for left in (hdr, hdr + 8, 4096):
+            try:
+                v = fd.ev(fn, b.cond, {'offset': 1000, 'offset_end': 1000 + left})
+            except (Top, ZeroDivisionError):
+                raise AnalysisBroken('jls_copy: loop condition %s not evaluable' % show(b.cond))
+            if not v:
+                bad.append(left)
+        ctx.ob(rule, not bad, fn.name, 'loop condition %s' % show(b.cond)[:50], b.events[-1].where() if b.events else fn.where(),
+               'holds with 32, 40 and 4096 bytes left' if not bad else
+               'false with %s bytes left: the last chunk of an unclosed original, when it has no payload (an empty user-data item), is not copied' % bad)
+    ctx.floor('chunk loops of jls_copy', n, 1)
